@@ -75,6 +75,8 @@ def classify(r):
             tags.add("list")
             if any(e["k"] == "null" for e in i["val"].get("l") or []):
                 tags.add("nil-element")
+                if i.get("field", "").startswith("codes"):
+                    tags.add("null-scalar-element")
     p = r["payloads"][0] if r["payloads"] else None
     if p:
         msgs = " ".join(e["message"] for e in p["errors"])
@@ -150,6 +152,13 @@ def run(ctx):
     for k, v in sb.items():
         built["execsub:" + k] = v
     cfgs = list(cfgs) + ["execsub:" + k for k in sb]
+    # user-written bindings: a function-pair scalar whose marshaler can answer graphql.Null (null at non-null
+    # scalar positions and list elements), a MarshalGQL scalar, an object whose fields are context methods
+    try:
+        built["execboom:base"] = gensrv.build_server(ctx, "execboom", "base")
+    except RuntimeError as e:
+        built["execboom:base"] = e
+    cfgs = list(cfgs) + ["execboom:base"]
     dist = Counter()
     nontriv = set()
     total = 0
